@@ -21,7 +21,7 @@ import sys
 from fractions import Fraction
 
 sys.path.insert(0, os.path.dirname(os.path.dirname(os.path.abspath(__file__))))
-from sa import core, pyfacts as pf, mono  # noqa: E402
+from sa import core, pyfacts as pf, mono, hinline  # noqa: E402
 from sa.mono import Poly, Evaluator, NotComparable, UnitInfer, UVec, POLYM  # noqa: E402
 from sa.selftest import Mutant  # noqa: E402
 
@@ -40,6 +40,30 @@ def registry_classes(mod):
     if not isinstance(v, (ast.List, ast.Tuple)) or not all(isinstance(e, ast.Name) for e in v.elts):
         raise core.AnalysisError("ALL_CLASSES is no longer a literal list of class names in %s" % mod.rel)
     return [e.id for e in v.elts]
+
+
+def map_routines(prog, mod, cls):
+    """fill_feat_ / fill_deriv_ of a map class with private helpers (methods of the class or
+    module-level functions) inlined, so that an extracted helper is read as if written in place"""
+    ms = pf.methods(cls)
+    if "fill_feat_" not in ms or "fill_deriv_" not in ms:
+        raise core.AnalysisError("%s lacks fill_feat_/fill_deriv_" % cls.name)
+    res = hinline.class_resolver(prog, mod, cls)
+    return hinline.inline_helpers(ms["fill_feat_"], res), hinline.inline_helpers(ms["fill_deriv_"], res)
+
+
+def resolve_literal(prog, mod, cls, node, depth=0):
+    """numeric value of a literal, a module-level named constant or a class-level constant (else None)"""
+    v = _lit(node)
+    if v is not None or depth > 4:
+        return v
+    if isinstance(node, ast.Name) and node.id in mod.assigns:
+        return resolve_literal(prog, mod, cls, mod.assigns[node.id], depth + 1)
+    if pf.is_self_attr(node) and cls is not None:
+        r = prog.find_class_attr(mod, cls, node.attr)
+        if r is not None:
+            return resolve_literal(prog, mod, cls, r[2], depth + 1)
+    return None
 
 
 def routine_params(fn, n):
@@ -139,10 +163,7 @@ def rule_maps_structure(chk, prog):
     mod = prog.module(TD)
     for cname in registry_classes(mod):
         cls = mod.cls(cname)
-        ms = pf.methods(cls)
-        if "fill_feat_" not in ms or "fill_deriv_" not in ms:
-            raise core.AnalysisError("%s lacks fill_feat_/fill_deriv_" % cname)
-        feat, der = ms["fill_feat_"], ms["fill_deriv_"]
+        feat, der = map_routines(prog, mod, cls)
         y, x = routine_params(feat, 2)
         dfdx, dfdy, dx = routine_params(der, 3)
         al_f, al_d = index_aliases(feat), index_aliases(der)
@@ -335,18 +356,13 @@ def clamp_signature(fn, x, aliases, const_of=None):
 def rule_clamp(chk, prog):
     mod = prog.module(TD)
     for cname in registry_classes(mod):
-        ms = pf.methods(mod.cls(cname))
-        feat, der = ms["fill_feat_"], ms["fill_deriv_"]
+        cls = mod.cls(cname)
+        feat, der = map_routines(prog, mod, cls)
         x = routine_params(feat, 2)[1]
         dx = routine_params(der, 3)[2]
-        cls = mod.cls(cname)
 
         def const_of(a, cls=cls):
-            if pf.is_self_attr(a):
-                r = prog.find_class_attr(mod, cls, a.attr)
-                if r is not None:
-                    return _lit(r[2])
-            return None
+            return resolve_literal(prog, mod, cls, a)
 
         sf = clamp_signature(feat, x, index_aliases(feat), const_of)
         sd = clamp_signature(der, dx, index_aliases(der), const_of)
@@ -394,8 +410,21 @@ class MapLeaf:
             return None
         return r[2]
 
+    def const_units(self, expr, depth=0):
+        """unit of a class-level / module-level constant expression (numbers and other named constants)"""
+        def leaf(n, ui):
+            if isinstance(n, tuple):
+                return None
+            if isinstance(n, ast.Name) and n.id in self.mod.assigns and depth < 4:
+                return self.const_units(self.mod.assigns[n.id], depth + 1)
+            return None
+        return UnitInfer(leaf).u(expr)
+
     def __call__(self, node, ui):
         if isinstance(node, tuple):
+            if node[0] == "const?":
+                # a bound that is a literal through a module-level / class-level name is a clamp constant
+                return resolve_literal(self.prog, self.mod, self.cls, node[1]) is not None
             if node[0] == "rvalue":
                 e = node[1]
                 if pf.is_self_attr(e) and self._is_index_attr(e.attr):
@@ -448,12 +477,14 @@ class MapLeaf:
                 return UVec({"F": 1, "Y": -1})
             if node.id == self.x:
                 return UVec({"X*": 1})
+            if node.id in self.mod.assigns and node.id not in ui.env:
+                return self.const_units(self.mod.assigns[node.id])  # module-level named constant
             return None
         if isinstance(node, ast.Attribute):
             if pf.is_self_attr(node):
                 cc = self.class_const(node.attr)
                 if cc is not None:
-                    return UnitInfer(lambda n, u: None).u(cc)  # numeric class constant
+                    return self.const_units(cc)  # numeric class constant
                 return UVec({"p:" + node.attr: 1})
             return None
         if isinstance(node, ast.Subscript):
@@ -514,8 +545,7 @@ def rule_units(chk, prog):
     mod = prog.module(TD)
     for cname in registry_classes(mod):
         cls = mod.cls(cname)
-        ms = pf.methods(cls)
-        feat, der = ms["fill_feat_"], ms["fill_deriv_"]
+        feat, der = map_routines(prog, mod, cls)
         lf = MapLeaf(prog, mod, cls, feat, "feat", chk)
         uf = UnitInfer(lf)
         uf.run(feat.body)
@@ -596,10 +626,11 @@ def _loop_pairs(fn, meth):
 def rule_list_iter(chk, prog):
     mod = prog.module(TD)
     cls = mod.cls("FeatureList")
-    ms = pf.methods(cls)
+    ms = dict(pf.methods(cls))
     for nm in ("__call__", "fill_vals_", "fill_derivs_"):
         if nm not in ms:
             raise core.AnalysisError("FeatureList.%s vanished" % nm)
+        ms[nm] = hinline.inline_helpers(ms[nm], hinline.class_resolver(prog, mod, cls))
     nfeat = ms.get("nfeat")
     nfeat_ok = nfeat is not None and any(
         isinstance(n, ast.Return) and pf.src(n.value) == "len(self.feat_list)" for n in ast.walk(nfeat))
@@ -609,6 +640,7 @@ def rule_list_iter(chk, prog):
         it = pf.src(loop.iter)
         recv = call.func.value
         qn = "FeatureList." + fn.name
+        zipped = None
         # canonical description of (element, row index)
         if it in ("range(self.nfeat)", "range(len(self.feat_list))") and isinstance(loop.target, ast.Name):
             if it == "range(self.nfeat)" and not nfeat_ok:
@@ -620,6 +652,13 @@ def rule_list_iter(chk, prog):
             lv = pf.src(loop.target.elts[0])
             elem_ok = pf.src(recv) == pf.src(loop.target.elts[1])
             rowidx = lv
+        elif pf.call_name(loop.iter) == "zip" and len(loop.iter.args) == 2 and pf.src(loop.iter.args[0]) == "self.feat_list" \
+                and isinstance(loop.target, ast.Tuple) and len(loop.target.elts) == 2 \
+                and all(isinstance(e, ast.Name) for e in loop.target.elts) and isinstance(loop.iter.args[1], ast.Name):
+            # for f, row in zip(self.feat_list, ARR): the second target *is* row i of ARR
+            elem_ok = pf.src(recv) == loop.target.elts[0].id
+            rowidx = None
+            zipped = (loop.iter.args[1].id, loop.target.elts[1].id)
         else:
             raise core.AnalysisError("%s: unrecognised iteration `for %s in %s`" % (qn, pf.src(loop.target), it))
         inst = "%s: for %s in %s -> %s" % (qn, pf.src(loop.target), it, pf.src(call)[:70])
@@ -628,6 +667,11 @@ def rule_list_iter(chk, prog):
             bad.append("receiver %s is not the element selected by the loop variable" % pf.src(recv))
         for pos, base in row_args:
             a = call.args[pos] if pos < len(call.args) else None
+            if rowidx is None:
+                if not (isinstance(a, ast.Name) and zipped == (base, a.id)):
+                    bad.append("argument %d is `%s`, expected the row of `%s` zipped with the element" % (
+                        pos, pf.src(a) if a is not None else None, base))
+                continue
             if not (isinstance(a, ast.Subscript) and pf.src(a.slice) == rowidx and isinstance(a.value, ast.Name)
                     and a.value.id == base):
                 bad.append("argument %d is `%s`, expected row `%s[%s]` of the same element" % (
@@ -717,6 +761,20 @@ def method_evaluator(prog, mod, cls, fn, roles, assume=None):
                 _depth[0] -= 1
             ev.stores.extend(sub.stores)
             return v
+        if isinstance(f, ast.Name) and f.id in mod.functions and _depth[0] <= 4:
+            callee = mod.functions[f.id]
+            vals = [ev._safe(lambda a=a: ev.ev(a)) for a in node.args]
+            cenv = mono.bind_params(callee, vals, skip_self=False)
+            names = [a.arg for a in callee.args.args]
+            for kw in node.keywords:
+                if kw.arg in names:
+                    cenv[kw.arg] = ev._safe(lambda kw=kw: ev.ev(kw.value))
+            sub = Evaluator(env=cenv, assume=ev.assume, leaf=None, call=call_hook, module_consts=ev.module_consts)
+            _depth[0] += 1
+            try:
+                return sub.run_function(callee)
+            finally:
+                _depth[0] -= 1
         return None
 
     return Evaluator(env=env, assume=assume, call=call_hook, module_consts=mod.assigns)
@@ -1107,15 +1165,15 @@ def analyse(chk):
         chk.count("map classes", len(registry_classes(prog.module(TD))))
     except core.AnalysisError:
         pass
-    chk.floor("accumulate", 60, "47 map stores + 7 normaliser stores + 12 semilocal column stores")
-    chk.floor("index-set", 42, "21 classes x 2")
-    chk.floor("linear-dfdy", 45, "47 increments in 21 classes")
-    chk.floor("units", 100, "110 unit obligations of the 21 derivative routines")
-    chk.floor("clamp", 28, "21 classes (7 clamp an input) + normaliser list carriers")
-    chk.floor("transpose", 16, "4 normaliser classes x (dx, drho, dinh, fill_fwd factor), all comparable today")
-    chk.floor("sl-transpose", 18, "npa 6 + nst 4 + np 4 + else 4 coefficient pairs, all comparable today")
-    chk.floor("mask-sym", 8, "4 slmode branches x (forward, reverse) against the value routine")
-    chk.floor("list-iter", 3, "__call__, fill_vals_, fill_derivs_")
+    chk.floor("accumulate", 30, "one store per raw feature of 21 map classes + normaliser stores (66 today)")
+    chk.floor("index-set", 21, "21 map classes")
+    chk.floor("linear-dfdy", 21, "at least one increment per map class (47 today)")
+    chk.floor("units", 50, "unit obligations of the 21 derivative routines (110 today)")
+    chk.floor("clamp", 14, "21 map classes + normaliser list carriers (31 today)")
+    chk.floor("transpose", 8, "4 normaliser classes x (dx, fill_fwd factor) at least")
+    chk.floor("sl-transpose", 8, "4 slmode branches x (rho, inh)")
+    chk.floor("mask-sym", 4, "4 slmode branches")
+    chk.floor("list-iter", 2, "__call__, fill_vals_, fill_derivs_")
     chk.assumptions += [
         "numeric literals are dimensionless; clamp literals, literal 0 and additive regularisers <= 1e-6 are unit-polymorphic",
         "names, primes with fractional exponents and pi are algebraically independent (positive reals)",
